@@ -162,6 +162,9 @@ impl Module for M {
     }
 
     fn generate(&self, _pid: &str, tier: Tier, rng: &mut Rng, emit: &mut dyn FnMut(String)) {
+        // `scale.shape arc|sector ..`: trailing hook tokens for the model side (shapes.rs `with_hooks`; never read by `execute`)
+        let mut hooked = |s: String| emit(with_hooks(s));
+        let emit: &mut dyn FnMut(String) = &mut hooked;
         let quick = tier == Tier::Quick;
         // degenerate objects first
         for st in ["7 9 1 1", "7 9 128 0", "- 9 3 2", "7 - 0 1", "- - 0 1"] {
